@@ -54,7 +54,7 @@ def main():
         print(json.dumps(rec))
         return
     demo = None
-    for name in ("demo.sh", "demo_test.rs"):
+    for name in ("demo.sh", "demo_test.rs", "demo_unit_test.rs"):
         if os.path.exists(os.path.join(mdir, name)):
             demo = name
     if confirm:
@@ -71,7 +71,20 @@ def main():
             shutil.copy(os.path.join(mdir, demo), os.path.join(REPO, "tests", "zz_demo_test.rs"))
             rc_m, out_m = sh("cargo test --offline --test zz_demo_test 2>&1 | tail -5", cwd=REPO, timeout=900)
             rec["demo_with_mutation_exit"] = 0 if "test result: ok" in out_m else 1
+        elif demo == "demo_unit_test.rs":
+            tgt = os.path.join(REPO, "src/debugger/command/reader/terminal.rs")
+            with open(tgt, "a") as f:
+                f.write("\n" + open(os.path.join(mdir, demo)).read())
+            rc_m, out_m = sh("cargo test --offline --lib demo 2>&1 | tail -8", cwd=REPO, timeout=900)
+            rec["demo_with_mutation_exit"] = 0 if ("test result: ok" in out_m and " 0 passed" not in out_m) else 1
         sh("git checkout -q -- . ", cwd=REPO)
+        if demo == "demo_unit_test.rs":
+            tgt = os.path.join(REPO, "src/debugger/command/reader/terminal.rs")
+            with open(tgt, "a") as f:
+                f.write("\n" + open(os.path.join(mdir, demo)).read())
+            rc_c, out_c = sh("cargo test --offline --lib demo 2>&1 | tail -8", cwd=REPO, timeout=900)
+            rec["demo_clean_exit"] = 0 if ("test result: ok" in out_c and " 0 passed" not in out_c) else 1
+            sh("git checkout -q -- . ", cwd=REPO)
         if demo == "demo.sh":
             sh("cargo build --offline 2>&1 | tail -1", cwd=REPO)
             rc_c, out_c = sh("sh %s" % os.path.join(mdir, demo), cwd=REPO, timeout=600)
